@@ -216,25 +216,37 @@ def fbits(x):
 
 def promote(num):
     if num["t"] == "f":
-        return terms.bits_float(bits_of(num))
+        return num["py"] if "py" in num else terms.bits_float(bits_of(num))
     try:
         return float(frac(num))
     except OverflowError:
         return math.inf
 
 
+def fnum(x):
+    """python float -> number dict (only the fields promote()/frac() and the comparison use)"""
+    return {"t": "f", "bits": str(fbits(x)), "s": 1 if math.copysign(1.0, x) < 0 else 0, "n": "1", "d": "1", "e": 0, "py": x}
+
+
 def py_bin(op, a, b):
-    if op == "/" and frac(b) == 0:
+    """-> ('err', class) | ('num', number dict) | None"""
+    if op == "/" and (frac(b) == 0 if b["t"] != "f" else promote(b) == 0.0):
         return ("err", "zero_divisor")
     if op in ("+", "-", "*") and a["t"] != "f" and b["t"] != "f":
-        return None
+        x, y = frac(a), frac(b)
+        r = {"+": x + y, "-": x - y, "*": x * y}[op]
+        if a["t"] == "i" and b["t"] == "i":
+            return ("num", {"t": "i", "n": str(r.numerator), "d": "1", "s": 0, "e": 0, "bits": "0"})
+        return ("num", {"t": "r", "n": str(r.numerator), "d": str(r.denominator), "s": 0, "e": 0, "bits": "0"})
     x, y = promote(a), promote(b)
     if math.isinf(x) or math.isinf(y):
         return ("err", "float_overflow")
+    if op == "/" and y == 0.0:
+        return ("err", "zero_divisor")
     r = {"+": lambda: x + y, "-": lambda: x - y, "*": lambda: x * y, "/": lambda: x / y}[op]()
     if math.isinf(r):
         return ("err", "float_overflow")
-    return ("f", fbits(r))
+    return ("num", fnum(r))
 
 
 def py_un(op, a):
@@ -258,8 +270,9 @@ def py_un(op, a):
             return ("f", fbits(x))
         if op == "sqrt":
             return ("f", fbits(math.sqrt(x)))
-        fp, ip = math.modf(x)
-        return ("f", fbits(ip if op == "float_integer_part" else fp))
+        ip = math.modf(x)[1]
+        # ISO 9.1.6.1: float_fractional_part(x) = x - float_integer_part(x), one (exact) IEEE subtraction
+        return ("f", fbits(ip if op == "float_integer_part" else x - ip))
     if a["t"] == "f":
         x = promote(a)
         if op == "-":
@@ -281,31 +294,29 @@ def py_check(v, table):
         r = py_bin(v["op"], ops[0], ops[1])
     elif kind == "un":
         r = py_un(v["op"], ops[0])
+        if r is not None and r[0] == "i":
+            r = ("num", {"t": "i", "n": str(r[1]), "d": "1", "s": 0, "e": 0, "bits": "0"})
+        elif r is not None and r[0] == "f":
+            r = ("num", {"t": "f", "bits": str(r[1])})
     elif kind == "nest":
         r1 = py_bin(v["op"], ops[0], ops[1])
         if r1 is None:
             return
-        if r1[0] == "err":
-            r = r1
-        else:
-            x = terms.bits_float(r1[1])
-            mid = {"t": "f", "s": 1 if math.copysign(1.0, x) < 0 else 0, "bits": str(r1[1]), "n": "1", "d": "1", "e": 0}
-            # promote() only needs the bits of a float; frac() is used for the zero-divisor test of the right operand only
-            r = py_bin(v["op2"], mid, ops[2]) if not (v["op2"] == "/" and frac(ops[2]) == 0) else ("err", "zero_divisor")
+        r = r1 if r1[0] == "err" else py_bin(v["op2"], r1[1], ops[2])
     elif kind == "pow" and v["rk"] == "val":
         x, y = promote(ops[0]), promote(ops[1])
         try:
-            r = ("f", fbits(math.pow(x, y)))
+            r = ("num", fnum(math.pow(x, y)))
         except (OverflowError, ValueError, ZeroDivisionError):
             r = None
     if r is None:
         return
     if r[0] == "err":
         ok = v["rk"] == "err" and v["err"] == r[1]
-    elif r[0] == "i":
-        ok = v["rk"] == "val" and v["v"]["t"] == "i" and int(v["v"]["n"]) == r[1]
     else:
-        ok = v["rk"] == "val" and v["v"]["t"] == "f" and bits_of(v["v"]) == r[1]
+        w = r[1]
+        ok = v["rk"] == "val" and v["v"]["t"] == w["t"] and (
+            bits_of(v["v"]) == int(w["bits"]) if w["t"] == "f" else frac(v["v"]) == frac(w))
     if not ok:
         raise common.ToolError("oracle self-check failed: %s spec=%s python=%r" % (describe(v, table), expected_text(v), r))
 
@@ -345,6 +356,56 @@ def result_class(v):
     if v["rk"] == "err":
         return v["err"]
     return v["rk"]
+
+
+MINSUB = Fraction(1, 1 << 1074)
+MAXD = Fraction(((1 << 53) - 1) << 971)
+
+
+def rne_bits(v, bits):
+    """the positive Fraction v rounded to `bits` significant bits, ties to even"""
+    n, d = v.numerator, v.denominator
+    sh = n.bit_length() - d.bit_length() - bits
+    while True:
+        q, r = divmod(n << max(0, -sh), d << max(0, sh))
+        if q.bit_length() == bits:
+            break
+        sh += 1 if q.bit_length() > bits else -1
+    if 2 * r > (d << max(0, sh)) or (2 * r == (d << max(0, sh)) and q & 1):
+        q += 1
+    return Fraction(q) * (Fraction(2) ** sh)
+
+
+def dr_sensitive(fr):
+    """input class 'rat-double-rounding': a rational whose quotient num/den has, aligned on the bit lengths of numerator and
+    denominator, 54 significant bits and for which rounding to 54 bits first changes the result of rounding to 53 bits"""
+    v = abs(fr)
+    if v == 0:
+        return False
+    n, d = v.numerator, v.denominator
+    if v < Fraction(2) ** (n.bit_length() - d.bit_length()):
+        return False
+    return rne_bits(rne_bits(v, 54), 53) != rne_bits(v, 53)
+
+
+def conv_tag(ops, v=None):
+    """names the class of the input when a rational operand lies where no double is near: strictly between half the
+    least subnormal and the least subnormal, or strictly between the largest double and the overflow threshold"""
+    tags = set()
+    rats = [frac(num) for num in ops if num["t"] == "r"]
+    if v is not None and v["kind"] == "nest" and ops[0]["t"] != "f" and ops[1]["t"] != "f" and v["op"] in "+-*" \
+            and "r" in (ops[0]["t"], ops[1]["t"]):
+        a, b = frac(ops[0]), frac(ops[1])          # the exact rational intermediate result of the inner operation
+        rats.append({"+": a + b, "-": a - b, "*": a * b}[v["op"]])
+    for fr in rats:
+        x = abs(fr)
+        if MINSUB / 2 < x < MINSUB:
+            tags.add("rat-below-minsub")
+        elif MAXD < x < MAXD + (1 << 970):
+            tags.add("rat-above-max")
+        elif MINSUB * (1 << 52) <= x <= MAXD and dr_sensitive(x):
+            tags.add("rat-double-rounding")
+    return "+".join(sorted(tags)) or "none"
 
 
 CTXS = ["clause", "query", "walk", "vars", "vars-boxed"]
@@ -413,17 +474,23 @@ def run(tier):
             steps.append({"q": "X is %s." % operand(num), "max": 2})
             steps.append({"q": "X is %s." % operand(num, boxed=True), "max": 2})
         opjobs.append({"id": "op%d" % bi, "steps": steps, "timeout": 120, "fresh": True})
-    # ---- cases ----
-    B = 120
-    jobs = []
-    for bi in range(0, len(vecs), B):
-        prog, steps = [], []
-        for n, v in enumerate(vecs[bi:bi + B]):
-            cl, qs = build_queries(v, table, n)
-            prog.append(cl)
-            steps += [{"q": q, "max": 2} for _, q in qs]
-        jobs.append({"id": bi, "steps": [{"consult": "".join(prog)}, {"q": "X is float(0).", "max": 1}] + steps,
-                     "timeout": 300, "fresh": True})
+    # ---- cases: one item per (vector, context) ----
+    clauses = {}
+    items = []
+    for vi, v in enumerate(vecs):
+        cl, qs = build_queries(v, table, vi)
+        clauses[vi] = cl
+        items += [(vi, ctx, q) for ctx, q in qs]
+
+    def make_jobs(its, rnd, size):
+        out = []
+        for bi in range(0, len(its), size):
+            chunk = its[bi:bi + size]
+            prog = "".join(clauses[vi] for vi in sorted(set(it[0] for it in chunk)))
+            out.append(({"id": "r%d-%d" % (rnd, bi), "fresh": True, "timeout": 300,
+                         "steps": [{"consult": prog}, {"q": "X is float(0).", "max": 1}] + [{"q": it[2], "max": 2} for it in chunk]},
+                        chunk))
+        return out
     # ---- sign of zero depends on history: a fresh machine whose first zero is a negative one ----
     negz = [v for v in vecs if v["rk"] == "val" and v["v"]["t"] == "f" and bits_of(v["v"]) == (1 << 63)
             and all(not (o["t"] == "f" and int(o["n"]) == 0) and not (o["t"] == "i" and int(o["n"]) == 0)
@@ -431,6 +498,7 @@ def run(tier):
     fz = [v for v in vecs if v["kind"] == "un" and v["op"] == "float" and table[v["i"] - 1]["t"] == "i"
           and int(table[v["i"] - 1]["n"]) == 0]
     hist = None
+    jobs = []
     if negz and fz:
         e1 = expr_of(negz[0], table, [operand(o) for o in operands_of(negz[0], table)] + ["", ""])
         e2 = expr_of(fz[0], table, [operand(o) for o in operands_of(fz[0], table)] + ["", ""])
@@ -439,6 +507,35 @@ def run(tier):
                      "steps": [{"q": "catch(X is %s, error(E,_), true)." % e1, "max": 2},
                                {"q": "catch(X is %s, error(E,_), true)." % e2, "max": 2}]})
     results = run_jobs(opjobs + jobs, workers=workers, job_timeout=300)
+    # A panic of the code under test loses the machine (and the consulted clauses): the items after it are run again.
+    outcome = {}
+    pending, rnd, size = items, 0, 480
+    while pending:
+        batch = make_jobs(pending, rnd, size)
+        rs = run_jobs([j for j, _ in batch], workers=workers, job_timeout=300)
+        pending = []
+        crashed = False
+        for job, chunk in batch:
+            r = rs.get(job["id"], {"crash": "missing"})
+            if "crash" in r:
+                if len(chunk) == 1:
+                    outcome[(chunk[0][0], chunk[0][1])] = {"panic": "worker process %s" % r["crash"]}
+                else:
+                    pending += chunk
+                    crashed = True
+                continue
+            outs = r["res"][2:]
+            for pos, it in enumerate(chunk):
+                out = outs[pos] if pos < len(outs) else {"panic": "no result"}
+                outcome[(it[0], it[1])] = out
+                if "panic" in out:
+                    pending += chunk[pos + 1:]
+                    break
+        rnd += 1
+        if crashed:
+            size = max(1, size // 8)
+        if rnd > 200:
+            raise common.ToolError("replay does not converge (more than 200 rounds of panics/crashes)")
 
     for job in opjobs:
         r = results.get(job["id"], {"crash": "missing"})
@@ -459,36 +556,25 @@ def run(tier):
                                   {"query": "X is %s." % operand(num, boxed), "vector": {"rk": "val", "v": num, "err": "", "c": num},
                                    "expr": operand(num, boxed), "context": "operand"})
     nsamp = 0
-    for job in jobs:
-        if job["id"] == "hist":
-            continue
-        bi = job["id"]
-        r = results.get(bi, {"crash": "missing"})
-        if "crash" in r:
-            rep.violation("batch %d crashed: %s" % (bi, r["crash"]), {"job": job, "result": r})
-            continue
-        outs = r["res"][2:]
-        pos = 0
-        for n, v in enumerate(vecs[bi:bi + B]):
-            cl, qs = build_queries(v, table, n)
-            ops = operands_of(v, table)
-            for ctx, q in qs:
-                out = outs[pos] if pos < len(outs) else {"panic": "no result"}
-                pos += 1
-                rep.case((v["kind"], v["op"], v["op2"], tuple(cls(o) for o in ops), result_class(v), ctx))
-                verdict = judge(out, v)
-                if verdict == "ok":
-                    if nsamp < 5 and ctx == "query" and (n * 31 + bi) % 977 == 0:
-                        nsamp += 1
-                        rep.sample({"expr": describe(v, table), "query": q[:300], "expected": expected_text(v)})
-                    continue
-                e = describe(v, table)
-                detail = {"vector": v, "expr": e, "context": ctx, "query": q, "clause": cl if ctx == "clause" else "",
-                          "expected": expected_text(v), "got": got_text(out)}
-                if verdict == "zerosign":
-                    rep.violation("zerosign expr=%s ctx=%s expected=%s got=%s" % (e, ctx, expected_text(v), got_text(out)), detail)
-                else:
-                    rep.violation("%s expr=%s ctx=%s expected=%s got=%s" % (v["kind"], e, ctx, expected_text(v), got_text(out)), detail)
+    for vi, v in enumerate(vecs):
+        ops = operands_of(v, table)
+        for ctx, q in build_queries(v, table, vi)[1]:
+            out = outcome.get((vi, ctx), {"panic": "no result"})
+            rep.case((v["kind"], v["op"], v["op2"], tuple(cls(o) for o in ops), result_class(v), ctx))
+            verdict = judge(out, v)
+            if verdict == "ok":
+                if nsamp < 5 and ctx == "query" and vi % 977 == 5:
+                    nsamp += 1
+                    rep.sample({"expr": describe(v, table), "query": q[:300], "expected": expected_text(v)})
+                continue
+            e = describe(v, table)
+            detail = {"vector": v, "expr": e, "context": ctx, "query": q, "clause": clauses[vi] if ctx == "clause" else "",
+                      "expected": expected_text(v), "got": got_text(out)}
+            if verdict == "zerosign":
+                rep.violation("zerosign expr=%s ctx=%s expected=%s got=%s" % (e, ctx, expected_text(v), got_text(out)), detail)
+            else:
+                rep.violation("%s conv=%s expr=%s ctx=%s expected=%s got=%s" % (
+                    v["kind"], conv_tag(ops, v), e, ctx, expected_text(v), got_text(out)), detail)
     if hist:
         r = results.get("hist", {"crash": "missing"})
         rep.case(("zero-history",))
